@@ -3,8 +3,8 @@ package main
 import (
 	"fmt"
 	"go/ast"
-	"go/token"
 	"go/constant"
+	"go/token"
 	"go/types"
 	"sort"
 	"strings"
@@ -653,152 +653,149 @@ func ruleENodeSets(p *Program, r *Reporter) {
 
 var pruneProducers = []string{"projectArray", "filterAndProjectArray", "flattenAndProjectArray", "projectObject", "objectValues", "filter", "flatten", "pruneArray"}
 
+func producerFunc(p *Program, name string) *ssa.Function {
+	fn := p.Func(p.Eval, "evaluator", name)
+	if fn == nil {
+		fn = p.Func(p.Eval, "", name)
+	}
+	return fn
+}
+
+// ruleEPrune: by interpretation of each producer on a symbolic subject (vdom.go). On every path that returns an array,
+// every element of that array is known, on that path, not to be null.
 func ruleEPrune(p *Program, r *Reporter) {
+	d := newValDom(p)
+	if d.why != "" {
+		r.Unknown(token.NoPos, "producers", d.why)
+		return
+	}
 	for _, name := range pruneProducers {
-		fn := p.Func(p.Eval, "evaluator", name)
-		if fn == nil {
-			fn = p.Func(p.Eval, "", name)
-		}
+		fn := producerFunc(p, name)
 		if fn == nil {
 			r.Unknown(token.NoPos, "evaluator."+name, "projection producer not found")
 			continue
 		}
-		n := 0
-		for _, b := range fn.Blocks {
-			for _, in := range b.Instrs {
-				c, ok := in.(*ssa.Call)
-				if !ok || builtinName(&c.Call) != "append" || len(c.Call.Args) != 2 {
-					continue
-				}
-				// single element append: second arg is a slice of a fresh 1-element array
-				sl, ok := c.Call.Args[1].(*ssa.Slice)
-				if !ok {
-					continue
-				}
-				al, ok := sl.X.(*ssa.Alloc)
-				if !ok {
-					continue
-				}
-				var elem ssa.Value
-				for _, ref := range *al.Referrers() {
-					if ia, ok := ref.(*ssa.IndexAddr); ok {
-						for _, r2 := range *ia.Referrers() {
-							if st, ok := r2.(*ssa.Store); ok {
-								elem = st.Val
-							}
-						}
+		key := "evaluator." + name + " elements"
+		vr, why := d.run(fn, 3, nil)
+		if why != "" {
+			r.Unknown(fn.Pos(), key, why)
+			continue
+		}
+		paths, arrays, elems := 0, 0, 0
+		var bad, unknown []string
+		var badPos token.Pos
+		for _, o := range vr.outs {
+			if o.Cut || o.Panic || o.Ret == nil || len(o.Res) == 0 {
+				continue
+			}
+			paths++
+			if vr.errIdx >= 0 && vr.errIdx < len(o.Res) && !isDefNil(o.Res[vr.errIdx]) {
+				continue // an error path: no result
+			}
+			res := o.Res[0]
+			if isDefNil(res) {
+				continue
+			}
+			es, why := vr.arrayElems(o.St, res)
+			if why != "" {
+				unknown = append(unknown, fmt.Sprintf("%s returns %s", p.Fset.Position(o.Ret.Pos()), why))
+			} else {
+				arrays++
+			}
+			for i, ev := range es {
+				elems++
+				if !o.St.knownNonNil(ev) {
+					bad = append(bad, fmt.Sprintf("%s: element %d of the returned array (%s) is not known to be non-null", p.Fset.Position(o.Ret.Pos()), i, renderVal(ev)))
+					if badPos == token.NoPos {
+						badPos = o.Ret.Pos()
 					}
 				}
-				if elem == nil {
-					continue
-				}
-				n++
-				key := fmt.Sprintf("evaluator.%s append#%d of %s", name, n, describeAddr(elem))
-				if nonNilFact(b, elem) {
-					r.OK(c.Pos(), key, "dominated by a test that the element is not null")
-				} else {
-					r.Bad(instrPos(c), key, "an element is added to the result of a projection without a dominating non-null test: null results are not omitted")
-				}
 			}
 		}
-		// element stores into a result slice (r[i] = v) are unpruned by construction
-		for _, b := range fn.Blocks {
-			for _, in := range b.Instrs {
-				st, ok := in.(*ssa.Store)
-				if !ok {
-					continue
-				}
-				ia, ok := st.Addr.(*ssa.IndexAddr)
-				if !ok {
-					continue
-				}
-				if _, isMake := ia.X.(*ssa.MakeSlice); !isMake {
-					continue
-				}
-				if _, isIface := st.Val.Type().Underlying().(*types.Interface); !isIface {
-					continue
-				}
-				n++
-				key := fmt.Sprintf("evaluator.%s store#%d of %s", name, n, describeAddr(st.Val))
-				if nonNilFact(b, st.Val) {
-					r.OK(st.Pos(), key, "dominated by a test that the element is not null")
-				} else {
-					r.Bad(instrPos(st), key, "an element is stored into the result of a projection without a non-null test")
-				}
-			}
-		}
-		if n == 0 {
-			r.Unknown(fn.Pos(), "evaluator."+name+" elements", "no element insertion found in a projection producer")
+		switch {
+		case len(bad) > 0:
+			r.Bad(badPos, key, "null results are not omitted from a projection: "+bad[0]+fmt.Sprintf(" (%d such paths)", len(bad)))
+		case len(unknown) > 0:
+			r.Unknown(fn.Pos(), key, "the elements of the result could not be determined: "+unknown[0])
+		case arrays == 0:
+			r.Unknown(fn.Pos(), key, fmt.Sprintf("no path of the producer returns an array (%d paths)", paths))
+		default:
+			r.OK(fn.Pos(), key, fmt.Sprintf("%d paths (arrays of up to 2 elements, loops cut after that), %d return an array, each of its %d elements known non-null on its path", paths, arrays, elems))
 		}
 	}
+}
+
+func renderVal(v AV) string {
+	s := avKey(v)
+	if len(s) > 80 {
+		s = s[:80] + "..."
+	}
+	return s
 }
 
 // ---------------------------------------------------------------- E-SELECTOR-NULL
 
 var selectors = []string{"field", "index", "slice", "sliceStep", "flatten", "pruneArray", "objectValues", "filter", "projectArray", "filterAndProjectArray", "flattenAndProjectArray", "projectObject"}
 
+// ruleESelectorNull: by interpretation of each selector on a symbolic subject: the paths on which every type test of
+// the subject failed return null and no error.
 func ruleESelectorNull(p *Program, r *Reporter) {
+	d := newValDom(p)
+	if d.why != "" {
+		r.Unknown(token.NoPos, "selectors", d.why)
+		return
+	}
 	for _, name := range selectors {
-		fn := p.Func(p.Eval, "evaluator", name)
-		if fn == nil {
-			fn = p.Func(p.Eval, "", name)
-		}
+		fn := producerFunc(p, name)
 		if fn == nil {
 			r.Unknown(token.NoPos, "evaluator."+name, "selector helper not found")
 			continue
 		}
-		// the subject parameter: the first `any` parameter
-		var subj *ssa.Parameter
-		for _, prm := range fn.Params {
-			if _, ok := prm.Type().Underlying().(*types.Interface); ok && !namedIs(prm.Type(), p.Parser.PkgPath, "Node") {
-				subj = prm
-				break
-			}
-		}
-		if subj == nil {
-			r.Unknown(fn.Pos(), "evaluator."+name, "no subject parameter")
-			continue
-		}
-		// all comma-ok assertions on the subject; the block reached when all have failed must return nil
-		var asserts []*ssa.TypeAssert
-		for _, ref := range *subj.Referrers() {
-			if ta, ok := ref.(*ssa.TypeAssert); ok && ta.CommaOk {
-				asserts = append(asserts, ta)
-			}
-		}
 		key := "evaluator." + name + " wrong-type subject"
-		if len(asserts) == 0 {
-			r.Unknown(fn.Pos(), key, "the subject is never type-tested")
+		// paths on which a type test of the subject succeeded are of no interest
+		vr, why := d.run(fn, 3, func(st *State, subject avSym) bool {
+			passed, _ := st.subjectTests(subject)
+			return len(passed) > 0
+		})
+		if why != "" {
+			r.Unknown(fn.Pos(), key, why)
 			continue
 		}
-		// find returns under "all asserts failed": a return block where for every assert, ok==false is a fact
-		found, good := false, true
-		for _, ret := range returnsOf(fn) {
-			all := true
-			for _, ta := range asserts {
-				okv := extractOf2(ta, 1)
-				if okv == nil || !boolFact(ret.Block(), okv, false) {
-					all = false
-				}
-			}
-			if !all {
+		found := 0
+		var bad string
+		var badPos token.Pos
+		var tested []string
+		for _, o := range vr.outs {
+			passed, failed := o.St.subjectTests(vr.subject)
+			if len(passed) > 0 || len(failed) == 0 {
 				continue
 			}
-			found = true
-			if !isNilConst(ret.Results[0]) {
-				good = false
+			pos := fn.Pos()
+			if o.Ret != nil {
+				pos = o.Ret.Pos()
 			}
-			if len(ret.Results) == 2 && !isNilConst(ret.Results[1]) {
-				good = false
+			switch {
+			case o.Cut:
+				continue
+			case o.Panic:
+				bad, badPos = "panics", pos
+				continue
+			}
+			found++
+			tested = failed
+			for i, rv := range o.Res {
+				if !isDefNil(rv) {
+					bad, badPos = fmt.Sprintf("returns %s as result %d", renderVal(rv), i), pos
+				}
 			}
 		}
 		switch {
-		case !found:
-			r.Unknown(fn.Pos(), key, "no return found on the path where every type test of the subject failed")
-		case good:
-			r.OK(fn.Pos(), key, "returns null (and no error) when the subject is neither of the expected containers")
+		case bad != "":
+			r.Bad(badPos, key, "a selector applied to a value of the wrong type does not yield null: with the subject none of "+strings.Join(tested, "/")+" it "+bad)
+		case found == 0:
+			r.Unknown(fn.Pos(), key, "the subject is never type-tested")
 		default:
-			r.Bad(fn.Pos(), key, "a selector applied to a value of the wrong type does not yield null")
+			r.OK(fn.Pos(), key, fmt.Sprintf("returns null (and no error) on the %d path(s) where the subject is none of %s", found, strings.Join(tested, "/")))
 		}
 	}
 }
@@ -853,27 +850,51 @@ func ruleEPipe(p *Program, r *Reporter) {
 // ---------------------------------------------------------------- E-EQUALITY
 
 func ruleEEquality(p *Program, r *Reporter) {
-	cases, _, why := evaluatorCases(p)
-	if why != "" {
-		r.Unknown(token.NoPos, "dispatcher", why)
-		return
-	}
-	var eq, ne *caseInfo
-	for _, ci := range cases {
-		analyseClause(p, ci)
-		switch ci.name {
-		case "EqualNode":
-			eq = ci
-		case "NotEqualNode":
-			ne = ci
+	// == and != : by interpretation of the dispatcher (edom.go): on the success paths of both nodes the result is the
+	// same predicate applied to (left result, right result), negated for != only
+	{
+		d := newEvalDom(p)
+		key := "!= is the negation of =="
+		if d.why != "" {
+			r.Unknown(token.NoPos, key, d.why)
+		} else {
+			_, forms := sortedForms(p)
+			res := map[string]map[string]bool{}
+			why := ""
+			for _, n := range []string{"EqualNode", "NotEqualNode"} {
+				form, ok := forms[n]
+				if !ok {
+					why = "the parser builds no " + n
+					break
+				}
+				outs, e := d.run(form)
+				if e.Aborted != "" {
+					why = e.Aborted
+					break
+				}
+				res[n] = map[string]bool{}
+				for _, o := range outs {
+					if o.Panic || o.Cut {
+						continue
+					}
+					pf := d.facts(o)
+					if pf.Err != "" {
+						continue
+					}
+					res[n][pf.Line] = true
+				}
+			}
+			eq, ne := keysOfSet(res["EqualNode"]), keysOfSet(res["NotEqualNode"])
+			switch {
+			case why != "":
+				r.Unknown(d.evalFn.Pos(), key, why)
+			case len(eq) == 1 && len(ne) == 1 && strings.Contains(eq[0], "=> ") && !strings.Contains(eq[0], "=> !") &&
+				strings.Replace(eq[0], "=> ", "=> !", 1) == ne[0]:
+				r.OK(d.evalFn.Pos(), key, "== : "+eq[0]+" ; != : "+ne[0])
+			default:
+				r.Bad(d.evalFn.Pos(), key, fmt.Sprintf("== computes [%s]; != computes [%s]: != must be the negation of the very predicate == applies to the same operands", strings.Join(eq, " | "), strings.Join(ne, " | ")))
+			}
 		}
-	}
-	if eq == nil || ne == nil {
-		r.Unknown(token.NoPos, "== / != cases", "EqualNode/NotEqualNode cases not found")
-	} else if eq.helper != "" && eq.helper == ne.helper && ne.negated && !eq.negated && strings.Join(eq.args, ",") == strings.Join(ne.args, ",") {
-		r.OK(ne.clause.Pos(), "!= is the negation of ==", "both call "+eq.helper+" on (left, right); only != negates")
-	} else {
-		r.Bad(ne.clause.Pos(), "!= is the negation of ==", fmt.Sprintf("== uses %s(%s) negated=%v; != uses %s(%s) negated=%v", eq.helper, strings.Join(eq.args, ","), eq.negated, ne.helper, strings.Join(ne.args, ","), ne.negated))
 	}
 	equal := p.Func(p.Eval, "", "equal")
 	contains := p.Func(p.Eval, "", "contains")
@@ -1100,34 +1121,114 @@ func ruleETruthy(p *Program, r *Reporter) {
 	// users: Not/And/Or cases and filter helpers decide with isTrue only
 	isTrueFn := p.Func(pk, "", "isTrue")
 	users := map[string]*ssa.Function{"filter": p.Func(pk, "evaluator", "filter"), "filterAndProjectArray": p.Func(pk, "evaluator", "filterAndProjectArray")}
+	vd := newValDom(p)
 	for _, name := range []string{"filter", "filterAndProjectArray"} {
 		fn := users[name]
-		if fn == nil || isTrueFn == nil {
-			r.Unknown(token.NoPos, "evaluator."+name+" truth test", "helper not found")
+		key := "evaluator." + name + " truth test"
+		if fn == nil || isTrueFn == nil || vd.why != "" {
+			r.Unknown(token.NoPos, key, "helper not found")
 			continue
 		}
-		// the append must be under isTrue(f) == true where f is the result of evaluating the filter node
-		found := false
-		for _, b := range fn.Blocks {
-			for _, in := range b.Instrs {
-				c, ok := in.(*ssa.Call)
-				if !ok || builtinName(&c.Call) != "append" {
-					continue
-				}
-				for _, f := range blockFacts(b) {
-					if call, ok := f.Cond.(*ssa.Call); ok && calleeOf(&call.Call) == isTrueFn && f.Truth {
-						found = true
-					}
-				}
-			}
-		}
-		if found {
-			r.OK(fn.Pos(), "evaluator."+name+" truth test", "elements are kept under isTrue(predicate result)")
-		} else {
-			r.Bad(fn.Pos(), "evaluator."+name+" truth test", "elements are kept under a condition that is not isTrue(predicate result): this filter form uses a different truthiness rule")
+		ff := filterFactsOf(p, vd, fn)
+		switch {
+		case ff.why != "":
+			r.Unknown(fn.Pos(), key, ff.why)
+		case len(ff.keptUntested) > 0:
+			r.Bad(fn.Pos(), key, "elements are kept under a condition that is not isTrue(predicate result): this filter form uses a different truthiness rule ("+ff.keptUntested[0]+")")
+		case ff.kept == 0:
+			r.Unknown(fn.Pos(), key, "no path keeps an element")
+		default:
+			r.OK(fn.Pos(), key, fmt.Sprintf("by interpretation: on %d paths every element that is kept (or projected) is one for which isTrue(result of the predicate on that element) holds (%d elements)", ff.paths, ff.kept))
 		}
 	}
 	_ = pk
+}
+
+// filterFacts: a filtering helper interpreted on a symbolic array (vdom.go). The predicate node is the node parameter
+// whose evaluation results are handed to the truth predicate.
+type filterFacts struct {
+	why          string
+	paths, kept  int
+	keptUntested []string             // an element kept, or projected, without isTrue(predicate(element)) on its path
+	rhsSites     map[token.Pos]string // evaluation sites of the other node: "" when always under the predicate, else why not
+}
+
+func filterFactsOf(p *Program, vd *valDom, fn *ssa.Function) *filterFacts {
+	ff := &filterFacts{rhsSites: map[token.Pos]string{}}
+	vr, why := vd.run(fn, 3, nil)
+	if why != "" {
+		ff.why = why
+		return ff
+	}
+	isTrueOn := func(st *State, v AV) bool {
+		t, ok := st.memo[avKey(avSym{tag: "true?", payload: v})]
+		return ok && t
+	}
+	// the predicate node
+	predNode := ""
+	for _, o := range vr.outs {
+		for _, ev := range o.St.Trace {
+			if ev.Kind != "eval" {
+				continue
+			}
+			if _, tested := o.St.memo[avKey(avSym{tag: "true?", payload: ev.Res[0]})]; tested {
+				predNode = avKey(ev.Args[0])
+			}
+		}
+	}
+	if predNode == "" {
+		ff.keptUntested = append(ff.keptUntested, "no evaluation result is ever handed to the truth predicate")
+		return ff
+	}
+	for _, o := range vr.outs {
+		if o.Panic {
+			continue
+		}
+		ff.paths++
+		passed := map[string]bool{} // current values the predicate accepted so far on this path
+		for _, ev := range o.St.Trace {
+			if ev.Kind != "eval" {
+				continue
+			}
+			ck := avKey(ev.Args[1])
+			if avKey(ev.Args[0]) == predNode {
+				if isTrueOn(o.St, ev.Res[0]) {
+					passed[ck] = true
+				}
+				continue
+			}
+			if _, seen := ff.rhsSites[ev.Pos]; !seen {
+				ff.rhsSites[ev.Pos] = ""
+			}
+			if passed[ck] {
+				ff.kept++
+			} else {
+				msg := "the other node is evaluated against " + renderVal(ev.Args[1]) + " which the predicate has not accepted on that path"
+				ff.rhsSites[ev.Pos] = msg
+				ff.keptUntested = append(ff.keptUntested, msg)
+			}
+		}
+		if o.Cut || o.Ret == nil || len(o.Res) == 0 || (vr.errIdx >= 0 && vr.errIdx < len(o.Res) && !isDefNil(o.Res[vr.errIdx])) || isDefNil(o.Res[0]) {
+			continue
+		}
+		// elements of the input that are kept as they are
+		es, why := vr.arrayElems(o.St, o.Res[0])
+		if why != "" {
+			continue // E-PRUNE reports an undeterminable result
+		}
+		for _, ev := range es {
+			sy, ok := ev.(avSym)
+			if !ok || !strings.HasPrefix(sy.tag, "elem") {
+				continue // a projected result: its evaluation was checked above
+			}
+			if passed[avKey(ev)] {
+				ff.kept++
+			} else {
+				ff.keptUntested = append(ff.keptUntested, fmt.Sprintf("%s: the result contains %s, which the predicate has not accepted on that path", p.Fset.Position(o.Ret.Pos()), renderVal(ev)))
+			}
+		}
+	}
+	return ff
 }
 
 // truthClass classifies what the truth predicate returns for a value v of one dynamic type.
